@@ -123,4 +123,9 @@ def main():
 
 
 if __name__ == "__main__":
+    import gc
+    gc.disable()
     main()
+    sys.stdout.flush()
+    sys.stderr.flush()
+    os._exit(0)      # pyboolector can segfault in interpreter teardown (node freed after its solver)
